@@ -5,7 +5,7 @@ run the check(s) of the property it breaks (plus any listed in seeded/<id>/also.
 and record in seeded/RESULTS.json whether a VIOLATION with a concrete failing input was reported.
 The clean-tree baseline (no VIOLATION) is the job of `vp check` / the normal sweep, not of this script.
 """
-import os, sys, json, subprocess, glob, re, time
+import os, sys, json, subprocess, glob, re, time, fcntl
 HERE = os.path.dirname(os.path.dirname(os.path.abspath(__file__)))
 
 def sh(cmd, **kw):
@@ -49,9 +49,18 @@ def main():
             out[c] = dict(status='caught-with-failing-input' if concrete else ('caught-no-failing-input' if viol else ('CHECK-CRASHED' if crashed else 'MISSED')),
                           tail=(r.stdout[-600:] if crashed else ''),
                           rc=r.returncode, violations=len(viol), first=what, wall_s=round(time.time() - t0, 1))
-        res[sid] = dict(property=prop, needs=meta.get('needs', '')[:400], summary=meta.get('summary', '')[:400], checks=out,
-                        repo_head=sh('git -C /repo rev-parse --short HEAD').stdout.strip())
-        json.dump(res, open(resf, 'w'), indent=1, sort_keys=True)
+        # several instances may run on disjoint seed sets: read-modify-write under a lock; earlier verdicts are kept in `history`
+        with open(resf + '.lock', 'w') as lk:
+            fcntl.flock(lk, fcntl.LOCK_EX)
+            res = json.load(open(resf)) if os.path.exists(resf) else {}
+            prev = res.get(sid, {})
+            hist = prev.get('history', [])
+            if prev.get('checks'):
+                hist = hist + [dict(repo_head=prev.get('repo_head'), verif_head=prev.get('verif_head'), checks={c: o.get('status') for c, o in prev['checks'].items()})]
+            res[sid] = dict(property=prop, needs=meta.get('needs', '')[:400], summary=meta.get('summary', '')[:400], checks=out, history=hist[-6:],
+                            repo_head=sh('git -C /repo rev-parse --short HEAD').stdout.strip(),
+                            verif_head=sh('git -C %s rev-parse --short HEAD' % HERE).stdout.strip())
+            json.dump(res, open(resf, 'w'), indent=1, sort_keys=True)
         sh('git -C /repo worktree remove --force %s; rm -rf %s' % (wt, wt))
         print(sid, {c: o.get('status') for c, o in out.items()}, flush=True)
         # regenerate the clean Gen/ files etc. by running the property's check once on the real tree
